@@ -45,6 +45,25 @@ def hanging_candidates(rnd):
             'cfg': {'N': rnd.choice([2, 3, 4]), 'maxto': 60, 'no_cache': True}, 'sched': [rnd.randint(0, 7) for _ in range(rnd.randint(0, 40))]}
 
 
+def interleaved_timeouts(rnd):
+    """hang, fail, hang, fail ... then a candidate that would succeed: MAX_TIMEOUTS counts the timeouts of the round,
+    not only those in a row"""
+    letters = list('abcdefgh')
+    maxto = rnd.choice([2, 3])
+    kinds = []
+    hangs = 0
+    for ch in letters[:-1]:
+        if hangs < maxto + 1 and rnd.random() < 0.55:
+            kinds.append((ch, 'timeout'))
+            hangs += 1
+        else:
+            kinds.append((ch, rnd.choice([1, 3])))
+    rules = [([('nothas', 0, ch)], out) for ch, out in kinds] + [([], 0)]
+    return {'files': [('f0.c', ''.join(letters))], 'rules': rules,
+            'passes': [{'key': 1, 'ops': [('delch', ch) for ch in letters], 'aos': 1, 'maxt': None, 'newfix': None}],
+            'cfg': {'N': 1, 'maxto': maxto, 'no_cache': True}, 'sched': []}
+
+
 def oracle_commits(ctx, sc, o):
     ok0 = {tuple(c) for (c, rc, _w, _l) in o.testlog if rc == 0}
     for d in o.accepted:
@@ -129,7 +148,9 @@ def explore(ctx):
             if prof == 'timeouts-parallel':
                 # hanging candidates among several in flight: a hang only costs its own candidate (the limit is far away)
                 sc = hanging_candidates(rnd)
-            if prof == 'timeouts':    # sequential runs with hanging candidates: several rounds, few timeouts each
+            if prof == 'timeouts' and it % 16 == 4:
+                sc = interleaved_timeouts(rnd)
+            elif prof == 'timeouts':    # sequential runs with hanging candidates: several rounds, few timeouts each
                 sc['cfg'].update({'N': 1, 'maxto': rnd.choice([1, 2, 3])})
                 sc['rules'] = [(atoms, out if out == 0 or rnd.random() < 0.5 else 'timeout') for atoms, out in sc['rules']]
         t0 = time.time()
